@@ -6,7 +6,8 @@ RULE = ("TLC enumerates aggregate lists (each of the nine functions alone + 6 mi
         "hardlinks, uid, line_count, length(name)) x 9 WHERE filters selecting 0, 1, 3 or many entries of world W7 (non-integer "
         "means, 2^33, 3000000001/3/5); one run each; Judge_C07 recomputes the aggregates exactly over BigNat from the lstat "
         "values and accepts printed decimals within relative 1e-9 (AVG) / 1e-6 (variances). Non-trivial = >= 2 matching entries and "
-        "at least one defined aggregate accepted.")
+        "at least one defined aggregate accepted. "
+        "A second generator (MC_C07r) runs aggregate lists x column x filter over pseudo-random trees (WorldRnd; quick 3, thorough 30).")
 ASSUMPTIONS = ["lstat size/nlink/uid as ground truth", "tolerances 1e-9 / 1e-6 stand for 'up to floating-point rounding'"]
 POOL = 8
 
